@@ -2,7 +2,7 @@
    and concrete instances showing that the hypotheses of every main theorem are satisfiable. *)
 From Coq Require Import List Bool Arith Lia ZArith.
 From QV Require Import Base.Mat Base.Zi C01.Model C01.Spec C01.Lib C01.ProofsCtrl C01.ProofsMat
-  C01.ProofsRun C01.ProofsDM.
+  C01.ProofsRun C01.ProofsDM C01.ProofsDMCor.
 Import ListNotations.
 
 Lemma Zi_semiring : semiring Ziops.
@@ -81,3 +81,18 @@ Example ex_dm_value :
   execute_dm Ziops zi_conj 3 ex_circuit ex_rho = sandwich Ziops zi_conj 3 (circ_op Ziops 3 ex_circuit) ex_rho
   /\ execute_dm Ziops zi_conj 3 ex_circuit ex_rho <> ex_rho.
 Proof. split; [vm_compute; reflexivity|vm_compute; discriminate]. Qed.
+
+Lemma zi_conj_invol : forall a, zi_conj (zi_conj a) = a.
+Proof. intros [a b]. unfold zi_conj. simpl. now rewrite Z.opp_involutive. Qed.
+
+(* a Hermitian rho with complex off-diagonal entries, and a unitary (permutation-like) circuit *)
+Definition ex_herm : mat Zi := tab2 2 (fun r c => (Z.of_nat (idx r) + Z.of_nat (idx c), Z.of_nat (idx r) - Z.of_nat (idx c))%Z).
+Example ex_herm_ok : hermitian Ziops zi_conj 2 ex_herm /\ wf_mat 2 ex_herm.
+Proof. split; [vm_compute; reflexivity|apply tab2_wf]. Qed.
+
+Definition ex_unitary_circuit : list (gate (T:=Zi)) :=
+  [(true, [1], [0], [[(0, 0); (0, -1)]; [(0, 1); (0, 0)]]%Z); (false, [], [1], [[(0, 0); (1, 0)]; [(1, 0); (0, 0)]]%Z)].
+Example ex_unitary_hyp :
+  Forall (gate_wf 2) ex_unitary_circuit /\
+  mmul Ziops (madj Ziops zi_conj 2 (circ_op Ziops 2 ex_unitary_circuit)) (circ_op Ziops 2 ex_unitary_circuit) = midentity Ziops 2.
+Proof. split; [unfold ex_unitary_circuit, gate_wf; fin|vm_compute; reflexivity]. Qed.
